@@ -2607,6 +2607,9 @@ class PrefixWrapper:
             self.name, subcls, prefix=self.prefix, orig_prefix=self.orig_prefix
         )
         wrapper._derived_from = self
+        # NOTE: the list itself is carried over too, so that a hasher derived
+        #       from a derived one keeps the attributes as well.
+        wrapper._using_clone_attrs = self._using_clone_attrs
         for attr in self._using_clone_attrs:
             setattr(wrapper, attr, getattr(self, attr))
         return wrapper
